@@ -164,13 +164,15 @@ func inlineAliases(body []ast.Stmt, pure func(ast.Expr) bool) []ast.Stmt {
 // flatSrc: the space-free source of the body of function/method `fn` of file rel in which every top-level statement that
 // calls a same-file function or method is preceded by that callee's flattened body (depth-limited).  Name-agnostic
 // regular expressions over it see through "extract helper" refactorings; positions give the order of events.
+var flatKeep = []string{"logIDForKey", "checkLogID", "VerifySTHSignature", "VerifySCTSignature", "getRawEntries", "PostAndParse", "PostAndParseWithRetry", "GetAndParse", "addChainWithRetry"}
+
 func flatSrc(rel, fn string, depth int) string {
 	fd := anyFunc(rel, fn)
 	if fd == nil {
 		panic(bail{fmt.Sprintf("%s: function %s not found", rel, fn)})
 	}
 	var sb strings.Builder
-	for _, s := range fd.Body.List {
+	for _, s := range canonFunc(rel, fn, flatKeep...).Body.List {
 		if depth > 0 {
 			seen := map[string]bool{}
 			ast.Inspect(s, func(n ast.Node) bool {
